@@ -401,8 +401,16 @@ func (q *seqRun) checkRestarts() {
 			if api2 == nil {
 				api2 = core.NewAPI(sys2.R, core.NewMemOutputStore(), "0123456789abcdef-harness-secret", false)
 			}
+			if _, still := sys2.ReadJob(id); !still {
+				continue // (the probes' completions let the persist loop of the restarted runner apply retention meanwhile)
+			}
 			if d2, code := detail(api2, id); liveDetail[id] != nil {
 				q.res.sit("C10", fmt.Sprintf("job detail over HTTP compared (canceled=%v error=%v)", before.Canceled, before.HasError))
+				if code == 404 {
+					if _, still := sys2.ReadJob(id); !still {
+						continue
+					}
+				}
 				if code != 200 || !reflect.DeepEqual(liveDetail[id], d2) {
 					b1, _ := json.Marshal(liveDetail[id])
 					b2, _ := json.Marshal(d2)
